@@ -44,7 +44,7 @@ C16_GROUPS = [
 STATIC = [
  {"id": "KF-C17-01", "property": "C17", "status": "open", "signatures": ["corrupt|field=table.size|outcome=*"],
   "what": "a buffer-table `size` field that disagrees with the file is not detected: section bodies and relocation entries are then misparsed and the loader aborts on an assert, crashes, or returns rules that crash or misbehave when used (no checksum / size cross-check in the format)"},
- {"id": "KF-C17-02", "property": "C17", "status": "open", "signatures": ["corrupt|field=reloc.buffer_id|outcome=*", "corrupt|field=reloc.offset|outcome=*"],
+ {"id": "KF-C17-02", "property": "C17", "status": "open", "signatures": ["corrupt|field=reloc.buffer_id|outcome=*"],
   "what": "relocation entries are only bounds-checked against their own buffer: an entry redirected to another buffer/offset makes the loader patch the wrong word (assert in yr_arena_ref_to_ptr, or rules that crash when scanned)"},
  {"id": "KF-C17-03", "property": "C17", "status": "open", "signatures": ["corrupt|field=hdr.num_buffers|outcome=abort-in-loader|assert", "corrupt|field=hdr.num_buffers|outcome=abort-in-loader|asan:SEGV", "corrupt|field=hdr.num_buffers|outcome=abort-in-loader|asan:heap-buffer-overflow", "corrupt|field=hdr.num_buffers|outcome=crash-after-load|*", "corrupt|field=hdr.num_buffers|outcome=loaded-different"],
   "what": "a num_buffers smaller than the writer's is accepted: later sections are read as relocation entries and the loader aborts on an assert (or crashes) instead of returning an error"},
